@@ -7,7 +7,7 @@ check('C22', title='Heartbeat and test-request supervision follows the protocol'
       level='model_checking', engine='sim+bfs',
       technique='explicit-state breadth-first search over virtual timelines (waits, ticks, inbound and outbound traffic) on the real Session in the coroutine process model (real FIXReader and FIXWriter), reference supervisor checked at every step',
       design_ref='DESIGN.md §3 C22',
-      text='For each heartbeat interval H and both roles every history up to the depth bound over {wait d seconds then tick for d in {1, H-1, H, floor(1.2H), floor(1.2H)+1}, inbound Heartbeat, inbound '
+      text='For each heartbeat interval H and each role (initiator, acceptor, acceptor configured with 3H+1 whose client logs on with HeartBtInt=H: the negotiated interval governs) every history up to the depth bound over {wait d seconds then tick for d in {1, H-1, H, floor(1.2H), floor(1.2H)+1}, inbound Heartbeat, inbound '
            'TestRequest (two ids), inbound application message, inbound application message two numbers ahead of sequence (puts the session into resend_request_sent), outbound send} runs on a real Session whose inbound bytes pass the real reader (which stamps the receive time). A reference supervisor '
            '(last sent, last received or TestRequest sent, pending flag) says for every tick whether a Heartbeat, a TestRequest, a Logout with termination or nothing must appear; TestRequests must be '
            'answered with the same TestReqID and a Heartbeat must clear a pending TestRequest.',
@@ -21,8 +21,8 @@ check('C23', title='Logon acceptance and CompID identity are enforced consistent
       technique='exhaustive enumeration of the complete product of logon configurations and CompID combinations on the real Session, plus all ordered pairs of session identities',
       design_ref='DESIGN.md §3 C23',
       text='Acceptor: TargetCompID {own, other} x SenderCompID {listed name, other} x client list {empty, contains the sender, contains someone else} x enforcement {on, off} x ResetSeqNumFlag '
-           '{absent, N, Y} x HeartBtInt {5, 30} x store {none, control record (5,7)} (288 cases), each followed by one application message each way. Logon must complete iff (target = own or enforcement off) '
-           'and (list empty or sender listed); the reply echoes 108; with 141=Y the reply carries 34=1 and the next inbound expected is 2; otherwise the recovered numbers are used. Initiator with identity (S,T): '
+           '{absent, N, Y} x HeartBtInt {5, 30} x store {none, control record (5,7)} x numbers handed to Session::start {none, outbound 9, outbound 9 and inbound 4} (864 cases), each followed by one application message each way. Logon must complete iff (target = own or enforcement off) '
+           'and (list empty or sender listed); the reply echoes 108; with 141=Y the reply carries 34=1 and the next inbound expected is 2; otherwise the numbers given to start(), else the recovered ones, are used. Initiator with identity (S,T): '
            'replies from all four CompID combinations under enforcement on/off. SessionID == / != on all ordered pairs over {A,B}^2 and on itself.',
       level_note='The product is complete for the stated dimensions; authentication callbacks and login schedules are not varied.',
       rule='case = one point of the product; all distinct and non-trivial',
